@@ -564,6 +564,8 @@ def compile_pair(ast_builder, mode, version):
             asm = pt.compileTeal(ast_builder(), recipes.PT_MODE[mode], version=version, assembleConstants=True)
         except own as e:
             return {"plain": plain, "asm_err": type(e).__name__ + ": " + str(e)[:200], "calls": cap.calls}
+        except Exception as e:  # noqa: BLE001 - the pass itself crashed (a refusal of its own, never a tool failure of this harness)
+            return {"plain": plain, "asm_err": "crash " + type(e).__name__ + ": " + str(e)[:200], "calls": cap.calls}
     return {"plain": plain, "asm": asm, "calls": cap.calls}
 
 
